@@ -71,7 +71,7 @@ class VerusResult:
         self.raw_stderr = ""
 
 
-def run(path, rlimit=30, extra=None, threads=None, timeout=900, multiple_errors=20):
+def run(path, rlimit=30, extra=None, threads=None, timeout=2400, multiple_errors=4):
     cmd = ["verus", path, "--output-json", "--time-expanded", "--error-format=json",
            "--multiple-errors", str(multiple_errors), "--rlimit", str(rlimit)]
     if threads:
